@@ -149,7 +149,7 @@ func randomLiteral(r *rng.R, q byte) []byte {
 	b := []byte{q}
 	n := r.Intn(10)
 	for i := 0; i < n; i++ {
-		switch r.Intn(8) {
+		switch r.Intn(9) {
 		case 0, 1:
 			b = append(b, '\\')
 			e := "abfnrtv\\'\"xuU01234567zq \n"
@@ -160,6 +160,22 @@ func randomLiteral(r *rng.R, q byte) []byte {
 			}
 		case 2:
 			b = append(b, "0123456789abcdefABCDEFg"[r.Intn(23)])
+		case 6: // numeric escapes with boundary values (surrogates, > U+10FFFF, octal > 377, short forms)
+			vals := []uint32{0, 0x27, 0x22, 0x5c, 0x7f, 0x80, 0xff, 0x7ff, 0x800, 0xd7ff, 0xd800, 0xdfff, 0xe000, 0xfffd, 0xffff, 0x10000, 0x10ffff, 0x110000, 0xffffffff, uint32(r.U64())}
+			v := vals[r.Intn(len(vals))]
+			switch r.Intn(5) {
+			case 0:
+				b = append(b, fmt.Sprintf("\\x%02x", v&0xff)...)
+			case 1:
+				b = append(b, fmt.Sprintf("\\u%04X", v&0xffff)...)
+			case 2:
+				b = append(b, fmt.Sprintf("\\U%08x", v)...)
+			case 3:
+				b = append(b, fmt.Sprintf("\\%03o", v&0x1ff)...)
+			default: // truncated form
+				t := fmt.Sprintf("\\U%08x", v)
+				b = append(b, t[:2+r.Intn(8)]...)
+			}
 		case 3:
 			x := byte(r.U64())
 			if x != q && x != '\n' && x != '\\' {
